@@ -1263,7 +1263,11 @@ func Gen(o Opts) *rapid.Generator[*Case] {
 		}
 
 		// names and strings
-		f.FamilyName = rapid.OneOf(rapid.SampledFrom([]string{"Test", "Verif Sans", "Bold Face", "Fünf"}), Text(12)).Draw(t, "family")
+		f.FamilyName = rapid.OneOf(rapid.SampledFrom([]string{"Test", "Verif Sans", "Bold Face", "Fünf"}),
+			// family names that contain the words subfamily names are made of
+			rapid.SampledFrom([]string{"Italic Hand", "Oblique Strategies", "Regular Joe", "Semi Bold Italic", "Thin Light",
+				"Black Medium", "Extra Bold", "Condensed Bold Oblique", "Ultra Expanded", "Bolder", "italic", "BoldItalic"}),
+			Text(12)).Draw(t, "family")
 		if f.FamilyName == "" {
 			f.FamilyName = "F"
 		}
